@@ -536,6 +536,8 @@ class CloudWorld(World):
             else:
                 progs = {str(self.cid(cl)): [call_scn(x) for x in calls] for cl, calls in ph['programs'].items()}
                 scn_ph.append({'race': {'programs': progs, 'schedule': [self.cid(x) for x in (ph['schedule'] or [])], 'faults': faults_of(ph)}})
+                if ph.get('open_in_race'):
+                    scn_ph[-1]['race']['open_in_race'] = True
                 pred_ph.append({'results': {str(self.cid(cl)): [res_of(x) for x in calls] for cl, calls in ph['programs'].items()},
                                 'log': log_of(ph, k)})
         store = []
@@ -579,6 +581,21 @@ class CloudWorld(World):
 
     def f_get_snapshot(self, srv):
         return self._rec(srv, 'get_snapshot', self.I.call('<CloudServer as Server>::get_snapshot', [mkref(srv)]))
+
+    def f_open_in_race(self, client):
+        """CloudServer::new as a recorded step of a racing program (its salt requests are scheduling points)"""
+        h = ServiceHandle(self, self.store, client)
+        fut = self.I.call('CloudServer::new', [h, clone_val(self.secret)])
+        call = dict(client=client, op='new', result=None, draws=[], prob=None)
+        self.cur['programs'].setdefault(client, []).append(call)
+        self.cur['open_in_race'] = True
+
+        def done(r):
+            call['result'] = r
+            if r.variant == 0:
+                self.servers[client] = (r.fields[0], h)
+            return r
+        return Then(fut, done)
 
     def f_cleanup(self, srv):
         return self._rec(srv, 'cleanup', self.I.call('CloudServer::cleanup', [mkref(srv)]))
